@@ -322,6 +322,8 @@ def run(ctx: Ctx):
     _strided_windows(ctx, rel)
 
     _offset_width_headroom(ctx, rel)
+    _arpa_numeric_grammar(ctx)
+    _kernel_returns_no_view_of_the_tables(ctx, rel)
 
     # ---- S6 unsigned numpy scalars ------------------------------------------------------------------------
     ni = NarrowInt(build)
@@ -490,10 +492,81 @@ def _offset_width_headroom(ctx: Ctx, rel: str):
            f"n-gram under that node silently backs off", rel, n_assign.lineno, sample=dict(bound=u(elt), constant=c, dummy=u(dummy[0].value)))
 
 
+def _arpa_numeric_grammar(ctx: Ctx):
+    """S8: an ARPA entry is `<log-prob> <tokens...> [<back-off>]`. parse_arpa_lm reads the back-off with the float
+    constructor but recognises the log-probability with a regular expression; both columns hold the same kind of number,
+    so the expression must accept what the float constructor accepts for the usual spellings (printf %e always signs the
+    exponent; -inf is what the lookup model itself stores for a missing entry). The pattern is a string constant of the
+    source; it is compiled here and probed with literals - no code of the repository is run."""
+    import re as _re
+    col, pkg = ctx.col, ctx.pkg
+    f = pkg.func("_parsing::parse_arpa_lm")
+    rel = f.module.relname
+    pats = []
+    for n in own_nodes(f.node):
+        if isinstance(n, ast.Call) and call_name(n) == "re.compile" and n.args and isinstance(n.args[0], ast.Constant) \
+                and isinstance(n.args[0].value, str) and n.args[0].value.endswith("\\s+(.*)$"):
+            pats.append(n)
+    uses_float = any(isinstance(c, ast.Call) and isinstance(c.func, ast.Name) and c.func.id in ("ftype", "float") for c in own_calls(f.node))
+    if len(pats) != 1 or not uses_float:
+        raise AnalysisError("C06: the entry pattern / float conversion of parse_arpa_lm was not found")
+    rx = _re.compile(pats[0].args[0].value)
+    probes = ["-1.5", "-1.5e-03", "-1.5e+00", "-2.302585E+00", "-inf", "-.5", "-1.", "0", "-99"]
+    rejected = [p for p in probes if not rx.match(f"{p} a b")]
+    col.ob("G13", "S8", f"{rel}::parse_arpa_lm::both-numeric-columns-use-one-grammar", not rejected,
+           f"the log-probability column is recognised by `{pats[0].args[0].value}`, which rejects {rejected} although the back-off "
+           f"column (float constructor) accepts them: an ARPA file written with %e, or containing -inf, raises IOError 'line ... "
+           f"is not valid' instead of yielding its entries", rel, pats[0].lineno, sample=dict(rejected=rejected, probes=probes))
+
+
+def _kernel_returns_no_view_of_the_tables(ctx: Ctx, rel: str):
+    """S9: the lookup kernel receives the model's registered buffers. A result that is a pure view of one of them
+    (slice / expand / view without an arithmetic or copying step) lets the caller's in-place edit of the *result*
+    rewrite the table, after which every later query - and the saved state - is wrong."""
+    from sa.defuse import ReachingDefs
+    col, pkg = ctx.col, ctx.pkg
+    kern = pkg.func(f"{MOD}::{KERNEL}")
+    rd = ReachingDefs(kern.node)
+    bufs = {p.name for p in kern.params} & {"logps", "logbs", "ids", "offsets"}
+    VIEW = {"expand", "expand_as", "view", "reshape", "unsqueeze", "squeeze", "t", "transpose", "narrow", "select", "permute"}
+
+    def pure_view(e, depth=0):
+        if depth > 8:
+            return None
+        if isinstance(e, ast.Name):
+            if e.id in bufs and all(d.kind == "param" for d in rd.defs_of(e)):
+                return e.id
+            ds = list(rd.defs_of(e))
+            if len(ds) == 1 and ds[0].kind == "assign" and ds[0].value is not None:
+                return pure_view(ds[0].value, depth + 1)
+            return None
+        if isinstance(e, ast.Subscript):
+            return pure_view(e.value, depth + 1)
+        if isinstance(e, ast.Call) and isinstance(e.func, ast.Attribute) and e.func.attr in VIEW:
+            return pure_view(e.func.value, depth + 1)
+        return None
+    bad = []
+    nret = 0
+    for n in own_nodes(kern.node):
+        if isinstance(n, ast.Return) and n.value is not None:
+            nret += 1
+            vals = n.value.elts if isinstance(n.value, ast.Tuple) else [n.value]
+            for v in vals:
+                b = pure_view(v)
+                if b:
+                    bad.append((n, b, u(v)))
+    col.ob("G29", "S9", f"{rel}::{KERNEL}::result-is-not-a-view-of-a-table", nret >= 1 and not bad,
+           f"`return {bad[0][2] if bad else ''}` hands out a view of the model's `{bad[0][1] if bad else ''}` buffer: an in-place edit "
+           f"of the returned log-probabilities rewrites the table (the unigram model then answers every later query, and saves, "
+           f"the edited numbers)", rel, bad[0][0].lineno if bad else kern.line, sample=[b[2] for b in bad])
+
+
 def _mutants():
     from selftest.mutate import Mutant as M
     L = "_lm.py"
     return [
+        M("unigram-returns-table-view", "_lm.py", "return last_logps.expand(B, V).clone()", "return last_logps.expand(B, V)", "result-is-not-a-view-of-a-table"),
+        M("arpa-unsigned-exponent-only", "_parsing.py", "ngram_entry_pattern = re.compile('^([-+]?(?:(?:\\\\d+\\\\.?\\\\d*|\\\\.\\\\d+)(?:[Ee][-+]?\\\\d+)?|inf))\\\\s+(.*)$')", "ngram_entry_pattern = re.compile('^(-?\\\\d+(?:\\\\.\\\\d+)?(?:[Ee]-?\\\\d+)?)\\\\s+(.*)$')", "both-numeric-columns-use-one-grammar"),
         M("offset-width-one-short", "_lm.py", "max_potential_offset = max((len(prob_dicts[n]) + len(prob_dicts[n - 1]) for n in range(1, N)))", "max_potential_offset = max((len(prob_dicts[n]) + len(prob_dicts[n - 1]) - 1 for n in range(1, N)))", "offset-width-covers-the-dummy-hop"),
         M("window-stride-one-row-short", "_lm.py", "hist.as_strided((Nm1, T_rest * B), (B, 1), hist.storage_offset() + B * (t - Nm1))", "hist.as_strided((Nm1, T_rest * B), (B, 1), hist.storage_offset() + B * (t - Nm1 + 1))", "strided-window-element"),
         M("window-strides-swapped", "_lm.py", "hist.as_strided((Nm1, T_rest * B), (B, 1), hist.storage_offset() + B * (t - Nm1))", "hist.as_strided((Nm1, T_rest * B), (1, B), hist.storage_offset() + B * (t - Nm1))", "strided-window-element"),
